@@ -1,5 +1,8 @@
 use std::net::SocketAddr;
+#[cfg(not(rws_verif))]
 use std::thread;
+#[cfg(rws_verif)]
+use crate::verif::thread;
 use file_ext::FileExt;
 use crate::entry_point::command_line_args::CommandLineArgument;
 use crate::request::Request;
